@@ -16,19 +16,44 @@ LEVEL = "model_checking"
 
 # ---- DNS specific shims (also used by props/c33.py) ---------------------------------------------------
 
-class DnsIO(lbytes.LBytesIO):
-    """LBytesIO whose symbolic seek offsets / read counts are turned into one path per concrete value
-    (a symbolic slice index on a z3 sequence does not finish); contents stay symbolic"""
+class CLBytes(lbytes.LBytes):
+    """LBytes that remembers its characters as a Python list (concrete length, symbolic contents)"""
+    __slots__ = ("chars",)
+
+
+def _chars_of(x):
+    cs = getattr(x, "chars", None)
+    if cs is not None:
+        return cs
+    s = lbytes._s(x)
+    return [s[i] for i in range(len(s))]
+
+
+class DnsIO:
+    """BytesIO stand-in for the DNS code: the buffer is a Python list of one-character strings, so its
+    length and every position are concrete while the contents may be symbolic (nested slices of
+    symbolic strings get symbolic bounds and every access becomes a solver query).  Symbolic seek
+    offsets / read counts are turned into one path per concrete value."""
+
+    def __init__(self, initial=b""):
+        self.chars = list(_chars_of(initial))
+        self.pos = 0
+        self.closed = False
+
+    def _mk(self, cs):
+        r = CLBytes("".join(cs))
+        r.chars = cs
+        return r
 
     def read(self, n=-1):
         if n is None:
             n = -1
+        rem = len(self.chars) - self.pos
+        if rem < 0:
+            rem = 0
         if not lbytes._is_conc(n):
-            rem = len(self.s) - self.pos
-            if rem < 0:
-                rem = 0
             if n < 0:
-                n = -1
+                n = rem
             else:
                 got = rem            # n > rem: short read (the caller sees fewer bytes than asked)
                 for k in range(rem + 1):
@@ -36,21 +61,86 @@ class DnsIO(lbytes.LBytesIO):
                         got = k
                         break
                 n = got
-        return lbytes.LBytesIO.read(self, n)
+        elif n < 0 or n > rem:
+            n = rem
+        r = self.chars[self.pos:self.pos + n]
+        self.pos = self.pos + n
+        return self._mk(r)
+
+    def write(self, data):
+        d = _chars_of(data)
+        n = len(self.chars)
+        if self.pos > n:
+            self.chars.extend(["\0"] * (self.pos - n))
+        self.chars[self.pos:self.pos + len(d)] = d
+        self.pos = self.pos + len(d)
+        return len(d)
 
     def seek(self, off, whence=0):
-        if whence == 0 and not lbytes._is_conc(off):
+        n = len(self.chars)
+        if whence == 0:
             if off < 0:
                 raise ValueError("negative seek value")
-            n = len(self.s)
-            pos = n + 1              # beyond the end: every later read is empty, like the real one
-            for k in range(n + 1):
-                if off == k:
-                    pos = k
-                    break
-            self.pos = pos
-            return pos
-        return lbytes.LBytesIO.seek(self, off, whence)
+            if not lbytes._is_conc(off):
+                pos = n + 1              # beyond the end: every later read is empty, like the real one
+                for k in range(n + 1):
+                    if off == k:
+                        pos = k
+                        break
+                off = pos
+            self.pos = off
+        elif whence == 1:
+            self.pos = max(0, self.pos + off)
+        else:
+            self.pos = max(0, n + off)
+        return self.pos
+
+    def tell(self):
+        return self.pos
+
+    def getvalue(self):
+        return self._mk(list(self.chars))
+
+    def truncate(self, size=None):
+        if size is None:
+            size = self.pos
+        del self.chars[size:]
+        return size
+
+    def close(self):
+        self.closed = True
+
+
+class DnsStruct(lbytes.l_struct):
+    """l_struct with pack() written as a chain of quotient/remainder steps: the same bytes, but z3 sees
+    nested small divisions instead of (v >> 24) & 255 etc. on one wide term (20x faster in context)"""
+
+    @staticmethod
+    def pack(fmt, *vals):
+        order, items = lbytes._parse_struct(fmt)
+        if order != ">" or len(vals) != len(items) or any(c not in "BHILQbhilq" for c, _ in items):
+            return lbytes.l_struct.pack(fmt, *vals)
+        out = []
+        for (code, sz), v in zip(items, vals):
+            if not isinstance(v, int) or isinstance(v, bool):
+                return lbytes.l_struct.pack(fmt, *vals)
+            if code in "bhilq":
+                lo, hi = -(1 << (8 * sz - 1)), (1 << (8 * sz - 1)) - 1
+                if not (lo <= v <= hi):
+                    raise lbytes.l_struct.error("'%s' format requires %d <= number <= %d" % (code, lo, hi))
+                if v < 0:
+                    v = v + (1 << (8 * sz))
+            elif not (0 <= v < (1 << (8 * sz))):
+                raise lbytes.l_struct.error("'%s' format requires 0 <= number <= %d" % (code, (1 << (8 * sz)) - 1))
+            r = v
+            for k in range(sz):
+                p = 1 << (8 * (sz - 1 - k))
+                if p == 1:
+                    out.append(chr(r))
+                else:
+                    out.append(chr(r // p))
+                    r = r % p
+        return lbytes.LBytes("".join(out))
 
 
 def l_ord(x):
@@ -82,7 +172,7 @@ class _Log:
 
 
 def lift_dns(extra=None):
-    sh = {"BytesIO": DnsIO, "ord": l_ord, "_vl_bytes": l_bytes_checked, "set": lbytes.SymSet}
+    sh = {"BytesIO": DnsIO, "ord": l_ord, "struct": DnsStruct, "_vl_bytes": l_bytes_checked, "set": lbytes.SymSet}
     if extra:
         sh.update(extra)
     L = lift.lift("twisted.names.dns", names=None, overrides={"log": _Log}, extra_shims=sh, bitops=True)
@@ -396,6 +486,97 @@ def msg_rt(mid: int, auth: int, nq: int, na: int, nns: int, nadd: int, ia: int, 
             and _prefix_rrs(kd, m.additional, d.additional, True))
 
 
+def _split_cases(lo, hi, v):
+    """turn the symbolic int v into one concrete-value path per value in lo..hi"""
+    for k in range(lo, hi + 1):
+        if v == k:
+            return k
+    return hi
+
+
+def trunc(mid: int, lim: int, nq: int, ttl: int, x1: int, c1: int, s1: str, s2: str) -> bool:
+    """
+    pre: 0 <= mid < 65536 and 12 <= lim and 0 <= nq <= 1
+    pre: 0 <= ttl < 2 ** 32 - 1 and 0 <= x1 < 65536 and 0 <= c1 < 65536
+    pre: len(s1) == 2 and len(s2) == 1 and all(ord(c) < 256 for c in s1 + s2)
+    post: _
+    """
+    # the same message without a size limit: its encoding and the untouched flag
+    full_m, kinds = _build_msg(mid, 0, nq, 2, 1, 1, 0, 1, 0, 15, c1, ttl, x1, s1, s2, 0)
+    full = t(full_m.toStr())
+    size = _split_cases(HS, len(full) + 1, lim)
+    m, kinds = _build_msg(mid, 0, nq, 2, 1, 1, 0, 1, 0, 15, c1, ttl, x1, s1, s2, size)
+    enc = t(m.toStr())
+    api.obs((size, enc))
+    cover()
+    d = L.Message()
+    d.fromStr(b(enc))          # decoding a truncated message raises nothing
+    if size >= len(full):
+        return enc == full and m.trunc == 0 and d.trunc == 0
+    if len(enc) > size or m.trunc != 1 or d.trunc != 1:
+        return False
+    if enc[4:] != full[4:size] or enc[:2] != full[:2]:
+        return False                        # the body is a prefix of the full body, counts unchanged
+    allrr = m.answers + m.authority + m.additional
+    got = d.answers + d.authority + d.additional
+    if len(d.authority) > 0 and len(d.answers) != 2:
+        return False
+    if len(d.additional) > 0 and len(d.authority) != 1:
+        return False
+    return (len(d.queries) <= len(m.queries) and _same_queries(m.queries[:len(d.queries)], d.queries)
+            and (len(got) == 0 or len(d.queries) == len(m.queries)) and _prefix_rrs(kinds, allrr, got, False))
+
+
+LABS = [1, 2] + list(range(60, 68)) + [128] + list(range(190, 194)) + [255, 256, 257, 300]
+TOTALS = [t_ for t_ in [100] + list(range(248, 262)) + [300, 400] if t_ % 64 != 0]
+
+
+def _longname(total):
+    """dotted name of exactly `total` characters made of labels of at most 63 bytes"""
+    parts = []
+    rem = total
+    while rem > 63:
+        parts.append("a" * 63)
+        rem -= 64
+    parts.append("b" * rem)
+    return ".".join(parts)
+
+
+def overlong(kind: int, i: int, dot: bool, comp: bool) -> bool:
+    """
+    pre: 0 <= kind <= 1 and 0 <= i < 20
+    post: _
+    """
+    if kind == 0:
+        n = _pick(i, LABS)
+        name = "x." + "a" * n + ".org"
+        ok = n <= 63
+        want = name
+    else:
+        total = _pick(i, TOTALS)
+        name = _longname(total) + ("." if dot else "")
+        # wire length = sum(len(label) + 1) + 1 = dotted length without trailing dot + 2 must be <= 255
+        ok = total + 2 <= 255
+        want = name[:total]
+    io = L.BytesIO()
+    cd = None
+    if comp:
+        cd = {}
+    try:
+        L.Name(b(name)).encode(io, cd)
+        refused = False
+    except Exception:
+        refused = True
+    cover()
+    api.obs((len(name), refused))
+    if not ok:
+        return refused
+    if refused:
+        return False
+    out, end = _dec_names("\0" * HS + t(io.getvalue()), 1)
+    return out == [want] and end == HS + len(want) + 2
+
+
 BOUNDS = {"quick": {"lab": 2, "names": 2, "txt": 1}, "thorough": {"lab": 3, "names": 4, "txt": 2}}
 B = {}
 HARNESSES = [H(name_rt, shards=[("len(l1) == 2", "len(l2) == 2", "len(l3) == 1")]),
@@ -404,4 +585,6 @@ HARNESSES = [H(name_rt, shards=[("len(l1) == 2", "len(l2) == 2", "len(l3) == 1")
              H(hdr_rt),
              H(msg_rt, shards=[("nq == %d" % a, "na == %d" % c) for a in range(3) for c in range(3)],
                timeout={"quick": 90, "thorough": 900}),
+             H(trunc, shards=[("nq == 0",), ("nq == 1",)], timeout={"quick": 120, "thorough": 900}),
+             H(overlong, shards=[("kind == 0",), ("kind == 1", "i < %d" % len(TOTALS))]),
              H(names_comp, shards=[("len(l1) == 2", "len(l2) == 2"), ("len(l1) == 1", "len(l2) == 2")])]
